@@ -69,6 +69,67 @@ def grab_decoder(state):
     return dict((t, deepcopy(state[t])) for t in ("y_transform", "c1_transform", "c2_transform"))
 
 
+# ------------------------------------------------------------------------------- C04 x C11 adaptor tie
+TRANSFORMS = ("y_transform", "c1_transform", "c2_transform")
+STATE_KEYS = ("luma_width", "luma_height", "color_diff_width", "color_diff_height", "luma_depth", "color_diff_depth",
+              "wavelet_index", "wavelet_index_ho", "dwt_depth", "dwt_depth_ho")
+
+# Coq side of the tie (Proofs/IntegChainDefs.v holds pic_encode / pic_decode; `tbl` = the live LIFTING_FILTERS,
+# dumped by the C11 harness's table_def).  The matrix function 10*level + orientation code makes the
+# orientation of every subband observable through the sb_qm field.
+ADAPTOR_DEFS = """
+Definition flt4 (i : Z) : filter := nth (Z.to_nat i) tbl (mk_filter 0 []).
+Definition sb3_eqb (a b : subband) : bool :=
+  (sb_level a =? sb_level b) && (sb_qm a =? sb_qm b) && band_eqb (sb_band a) (sb_band b).
+Definition check_adaptor (c : (Z * Z) * list Z * (Z * Z) * picture
+                              * (list subband * list subband * list subband)
+                              * (list band * list band * list band) * picture) : bool :=
+  let '(wi, wiho, a, (ld, cd), p, (ey, e1, e2), bl, (dy, d1, d2)) := c in
+  let st := mkst a in
+  let e := pic_encode (flt4 wi) (flt4 wiho) st (fun l o => 10 * l + o) ld cd p in
+  let d := pic_decode (flt4 wi) (flt4 wiho) st ld cd bl in
+  list_eqb sb3_eqb (fst (fst e)) ey && list_eqb sb3_eqb (snd (fst e)) e1 && list_eqb sb3_eqb (snd e) e2
+  && band_eqb (fst (fst d)) dy && band_eqb (snd (fst d)) d1 && band_eqb (snd d) d2.
+"""
+
+
+def adaptor_case(rng, est, cf, pic):
+    """REAL picture_encode on the picture: every subband in the order transform_and_slice_picture visits them, as
+    (level, 10*level + orientation index, array); REAL picture_decode on those arrays (half of the time perturbed, so that
+    clipping happens and the inverse transform runs on data that is not a forward transform's output)."""
+    from vc2_conformance.pseudocode import picture_encoding as pe
+    from vc2_conformance.pseudocode import picture_decoding as pd
+    from vc2_conformance.pseudocode.state import State
+    st = State((k, est[k]) for k in STATE_KEYS)
+    p = dict((c, deepcopy(pic[c])) for c in ("Y", "C1", "C2"))
+    pe.picture_encode(st, p)
+    enc = [bands_in_order(st[t]) for t in TRANSFORMS]
+    st2 = State((k, est[k]) for k in STATE_KEYS)
+    st2["picture_number"] = 0
+    perturb = rng.random() < 0.5
+    for t in TRANSFORMS:
+        st2[t] = deepcopy(st[t])
+        if perturb:
+            depth = est["luma_depth"] if t == "y_transform" else est["color_diff_depth"]
+            for level in st2[t]:
+                for orient in st2[t][level]:
+                    for row in st2[t][level][orient]:
+                        for x in range(len(row)):
+                            if rng.random() < 0.3:
+                                row[x] += rng.randint(-(1 << depth), 1 << depth)
+    dec_in = [[deepcopy(a) for (l, o, a) in bands_in_order(st2[t])] for t in TRANSFORMS]
+    pd.picture_decode(st2)
+    dec = [st2["current_picture"][c] for c in ("Y", "C1", "C2")]
+    lit = "((%s, %s), %s, (%s, %s), (%s, %s, %s), (%s, %s, %s), (%s, %s, %s), (%s, %s, %s))" % (
+        cz(int(est["wavelet_index"])), cz(int(est["wavelet_index_ho"])), clist(st_args(est, cf)),
+        cz(est["luma_depth"]), cz(est["color_diff_depth"]),
+        band_lit(pic["Y"]), band_lit(pic["C1"]), band_lit(pic["C2"]),
+        *(["[" + "; ".join("(%s, %s, %s)" % (cz(l), cz(10 * l + ORIENTS.index(o)), band_lit(a)) for (l, o, a) in e) + "]" for e in enc]
+          + ["[" + "; ".join(band_lit(a) for a in d) + "]" for d in dec_in]
+          + [band_lit(d) for d in dec]))
+    return lit, perturb
+
+
 # ------------------------------------------------------------------------------- one configuration
 def build(I, inp):
     encoder, P, T, S, WF, CDF = I
@@ -180,6 +241,11 @@ def run_config(ctx, I, inp, cases=None, verbose=False):
             obs = ["[" + "; ".join(band_lit(a) for (l, o, a) in bands_in_order(dec[t])) + "]" for t in ("y_transform", "c1_transform", "c2_transform")]
             cases["scatter"].append("(%s, %s, [%s], (%s, %s, %s), (%s, %s, %s))" % (
                 clist(args), cbool(profile == "ld"), "; ".join("(%s, %s)" % (cz(l), cz(q)) for (l, q) in shape), ll[0], ll[1], ll[2], obs[0], obs[1], obs[2]))
+            # C04 x C11 adaptor: picture -> subband list (order, levels, orientations, shapes, values) and back
+            lit, perturbed = adaptor_case(ctx.rng, est, cf, pic)
+            cases["adaptor"].append(lit)
+            ctx.count(1, key=("adaptor", repr(inp), pic.get("pic_num")) if cf["dwt_depth"] + cf["dwt_depth_ho"] > 0 else None,
+                      bucket="corr-adaptor-" + ("perturbed" if perturbed else "exact"))
             cases["meta"].append(inp)
     return kind + "-" + profile
 
@@ -250,9 +316,11 @@ def run(ctx):
         "real make_sequence -> autofill_and_serialise_stream -> real validator; decoded pictures must equal the inputs.  correspondence on the same "
         "runs: coefficient arrays captured at picture_encode -> slices (gather), make_transform_data_hq_lossless, slice coefficient lists -> arrays "
         "captured at the decoder's picture_decode (scatter, with DC prediction for LD); plus apply_dc_prediction / dc_prediction on random bands "
-        "(0-5 x 0-6, magnitudes to 2^70).  A case is non-trivial when the picture is not constant.")
+        "(0-5 x 0-6, magnitudes to 2^70); plus, for the end-to-end theorems, the real picture_encode / picture_decode against the adaptor "
+        "pic_encode / pic_decode of Proofs/IntegChainDefs.v on the same pictures (subband order, levels, orientations, shapes, offset; decode half of "
+        "the time on perturbed coefficients so that clipping occurs).  A case is non-trivial when the picture is not constant.")
     corr_dc(ctx, I)
-    cases = {"gather": [], "lossless": [], "scatter": [], "meta": []}
+    cases = {"gather": [], "lossless": [], "scatter": [], "adaptor": [], "meta": []}
     ncorr = ctx.pick(50, 700)
     for i in range(ctx.pick(200, 4000)):
         lossless = rng.random() < 0.55
@@ -272,10 +340,21 @@ def run(ctx):
         for k in (bad or []):
             ctx.obligation("corr:%s agrees with the model" % name, False, "corr-shard",
                            "differ at %r" % (cases["meta"][k] if name != "lossless" else cases[name][k][:300],))
-    
+    # the adaptor of the end-to-end theorems (C04_end_to_end_*): Proofs/IntegChainDefs.v pic_encode / pic_decode against the
+    # real picture_encode / picture_decode, with the live filter table
+    import vc2_data_tables as tables
+    import C11 as H11
+    tdef, _ = H11.table_def(tables)
+    bad = ctx.coq_check_cases("adaptor", ["Base.PyZ", "Gen.StateRec", "Model.Lifting", "Model.Wavelet", "Model.EncoderSlices", "Corr.C04",
+                                          "Proofs.IntegChainDefs"], "check_adaptor", cases["adaptor"], shard=6,
+                              defs=tdef + ADAPTOR_DEFS)
+    for k in (bad or []):
+        ctx.obligation("corr:picture_encode/picture_decode subband order, orientations, shapes, offset and clip agree with the adaptor of "
+                       "C04_end_to_end_* (IntegChainDefs.pic_encode / pic_decode)", False, "corr-shard", "differ at %r" % (cases["meta"][k],))
     ctx.trusted.append("Gen/Quant.v, Gen/ExpGolombLen.v, Gen/SliceSizes.v, Gen/VC2Math.v regenerated from /repo by the translator on this run")
-    ctx.trusted.append("wavelet transform round trip (C11), picture offset/clip and the byte-level container around slices are covered here only by the "
-                       "end-to-end oracle (encoder -> validator), not by the C04 theorems")
+    ctx.trusted.append("C04_end_to_end_*: Model/Lifting.v + Model/Wavelet.v are C11's hand models (tied by the C11 run); their composition with "
+                       "offset/clip and the subband ordering (Proofs/IntegChainDefs.v) is tied here by the adaptor cases.  The byte-level container "
+                       "around slices is covered only by the end-to-end oracle (encoder -> validator), not by the C04 theorems")
 
 
 def replay(ctx, data):
